@@ -69,7 +69,25 @@ impl StyleSheetOutput {
         }
         self.prev_ser_type = next_ser_type;
         let output_start_pos = self.s.len();
-        token.to_css(&mut self.s).unwrap();
+        match &*token {
+            // integers are written from their integer value
+            // (the generic serialization goes through `f32` with 6 significant digits)
+            Token::Number {
+                has_sign,
+                value,
+                int_value: Some(v),
+            } => {
+                if *v == 0 && value.is_sign_negative() {
+                    self.s.push_str("-0");
+                } else {
+                    if *has_sign && *v >= 0 {
+                        self.s.push('+');
+                    }
+                    write!(&mut self.s, "{}", v).unwrap();
+                }
+            }
+            _ => token.to_css(&mut self.s).unwrap(),
+        }
         let name = src.map(|x| {
             let s = x.to_css_string();
             self.source_map.add_name(&s)
